@@ -26,9 +26,10 @@ func keyVal(kind string, v int) (interface{}, bool) {
 		return nil, false
 	}
 	if kind == "s" {
-		return []string{"a", "b", "c"}[v], true
+		// zero and the empty string are keys like any other
+		return []string{"", "a", "b"}[v], true
 	}
-	return float64(v + 1), true
+	return float64(v - 1), true
 }
 
 func cmpKeys(a, b interface{}) int {
@@ -295,6 +296,9 @@ func c13Random(rr *prng.R, r *fw.Rec) {
 		var e jast.Node
 		if kinds[0] == "n" {
 			e = &jast.Bin{Op: "*", L: &jast.Name{V: "k1"}, R: &jast.Num{V: -1}}
+			if rr.Bool() {
+				e = &jast.Bin{Op: "-", L: &jast.Name{V: "k1"}, R: &jast.Num{V: 1}}
+			}
 		} else {
 			e = &jast.Bin{Op: "&", L: &jast.Name{V: "k1"}, R: &jast.Str{V: "x"}}
 		}
